@@ -101,6 +101,8 @@ impl IntoMessage for StopBusListenerReply { open spec fn min_minor() -> u32 { 0 
 //@item broker/src/bus_listener.rs struct BusListener
 
 impl BusListener {
+    // the cached-flag invariant of the leaf unit; filters are opaque here, so it is an uninterpreted predicate in this unit
+    pub uninterp spec fn flags_ok(&self) -> bool;
     //@fn-from broker_bus_listener broker/src/bus_listener.rs BusListener::new
     //@fn-from broker_bus_listener broker/src/bus_listener.rs BusListener::conn_id
     //@fn-from broker_bus_listener broker/src/bus_listener.rs BusListener::clear_filters
